@@ -509,6 +509,36 @@ func TestC20(t *testing.T) {
 					fail("promise created by schedule %q carries param %q tags %q, want %q %q", sid, found.Param.GetData(), found.Tags, pdata, want)
 				}
 			}
+			// the same schedule id again, with another id template: the promises of the new incarnation follow the new
+			// template (nothing remembered from the deleted one)
+			if rapid.Bool().Draw(rt, "recreate") {
+				tmpl2 := "{{.id}}#{{.timestamp}}"
+				if _, err := g.Schedules.CreateSchedule(ctx, &pb.CreateScheduleRequest{Id: sid, Cron: "* * * * * *", PromiseId: tmpl2, PromiseTimeout: 3600_000, PromiseTags: ptags}); err != nil {
+					fail("gRPC re-create of schedule %q: %v", sid, err)
+				}
+				var again *pb.Promise
+				var others []string
+				deadline := time.Now().Add(5 * time.Second)
+				for time.Now().Before(deadline) && again == nil {
+					sr, err := g.Promises.SearchPromises(ctx, &pb.SearchPromisesRequest{Id: "*", Tags: map[string]string{"resonate:invocation": "true"}, Limit: 100})
+					if err == nil {
+						others = nil
+						for _, p := range sr.Promises {
+							if strings.HasPrefix(p.Id, sid+"#") {
+								again = p
+							} else if strings.HasPrefix(p.Id, sid+"|") {
+								others = append(others, p.Id)
+							}
+						}
+					}
+					time.Sleep(150 * time.Millisecond)
+				}
+				_, _ = g.Schedules.DeleteSchedule(ctx, &pb.DeleteScheduleRequest{Id: sid})
+				if again == nil {
+					fail("schedule %q was deleted and created again with the id template %q: within 5 s no promise with an id of that template appeared (promises of the old template: %d)", sid, tmpl2, len(others))
+				}
+				stats.Class("schedule-recreated")
+			}
 			stats.Class("schedule")
 			stats.Nontriv(sid, map[string]any{"schedule": sid, "created_promise": fmt.Sprint(found.GetId())})
 		}
